@@ -245,7 +245,7 @@ func checkJSON(cs *v5case, out []byte, agent string, nflows int) (string, string
 	if doc.AgentID != agent {
 		return "agent", doc.AgentID
 	}
-	if len(doc.Header) != len(hdrFields) {
+	if len(doc.Header) < len(hdrFields) { // further keys are not excluded by the statement
 		return "header-keys", fmt.Sprint(doc.Header)
 	}
 	for _, f := range hdrFields {
@@ -257,7 +257,7 @@ func checkJSON(cs *v5case, out []byte, agent string, nflows int) (string, string
 		return "flow-count", fmt.Sprint(len(doc.Flows))
 	}
 	for r, fl := range doc.Flows {
-		if len(fl) != len(recFields) {
+		if len(fl) < len(recFields) {
 			return "flow-keys", fmt.Sprint(fl)
 		}
 		for _, f := range recFields {
